@@ -57,7 +57,7 @@ def run(spec, ids):
         for i in ids:
             for tier in ['quick']:
                 t = time.time()
-                rc, out = sh(f'{V}/check {i} --tier {tier}', cwd=V)
+                rc, out = sh(f'{V}/check {i} --tier {tier} --seed ' + os.environ.get('VERIF_MATRIX_SEED', '1'), cwd=V)
                 lines = sorted([l for l in out.splitlines() if l.startswith(('VIOLATION', 'KNOWN-FINDING', 'OK ', 'INTERNAL'))], key=lambda l: 0 if l.startswith('VIOLATION') else 1)
                 results[f'{i}:{tier}'] = dict(exit=rc, lines=lines[:6], wall=round(time.time() - t, 1))
                 print(i, tier, rc, lines[:4])
